@@ -53,14 +53,15 @@ class Tracer:
 
     def _inside(self, p):
         try:
-            rp = os.path.realpath(os.fspath(p))
+            rp = os.path.realpath(os.fsdecode(os.fspath(p)))      # (a name may also be given as bytes)
         except TypeError:
             return False
         return rp == self.root or rp.startswith(self.root + os.sep)
 
     def _rel(self, p):
         """path as the caller gave it (the model's paths are the caller's strings)"""
-        return os.fspath(p)
+        p = os.fspath(p)
+        return os.fsdecode(p) if isinstance(p, bytes) else p
 
     def _emit(self, kind, path, always=False, **kw):
         """returns False if the event is not ours (not traced)"""
